@@ -33,7 +33,7 @@ def tasks(tier, seed):
                    opts=dict(alloc_policy=(64, 1 << 28), enum_limit=400, max_steps=600000, extra=['zlib_stub.cpp'], limit_is_hang=True,
                              validate=False, max_wall=600),
                    desc='file of three CanMessage objects written by the library (level 0); the second object header '
-                        'gets a symbolic 32-bit objectSize and a type code from {CAN_MESSAGE, CAN_MESSAGE2, APP_TEXT, '
+                        'gets a symbolic 32-bit objectSize, a symbolic 16-bit headerSize and a type code from {CAN_MESSAGE, CAN_MESSAGE2, APP_TEXT, '
                         'unknown 200, 0, LOG_CONTAINER}; whole read session (3 threads, cooperative schedule): open, '
                         'read until null (<= 50 objects), close; no deadlock, no livelock, no memory error',
                    reach=('end',), bounds='one corrupted object header; all 2^32 sizes x 6 type codes',
